@@ -68,7 +68,6 @@ def stepCmd (t : Tree) (ws : List Nat) (a : TraceAcc) (c : Cmd) : TraceAcc :=
     let kf := match a.kf with
       | some k => some k
       | none => if m == s then none
-                else if !tolerant ws seen true then some "pc-intolerant-wrap"
                 else if 2 * faulty ws < voteWeight ws seen true ∧ voteWeight ws seen true < threshold (total ws)
                   then some "estimate-shortcut-below-threshold"
                 else some "none"
